@@ -141,7 +141,8 @@ def run_tlc(module, cfg, workdir=None, workers=None, timeout=1800, env=None, sim
         elif 'The first argument of Assert evaluated to FALSE' in out:
             res.violation = 'assert'
         else:
-            raise TLCError('TLC failed:\n' + out[-4000:])
+            k = out.find('Error:')
+            raise TLCError('TLC failed:\n' + (out[max(0, k - 300):k + 2500] if k >= 0 else out[-4000:]))
         res.cex = _parse_states(out)
     return res
 
@@ -154,7 +155,7 @@ def _parse_printed(out):
     depth = 0
     for line in out.splitlines():
         if depth == 0:
-            if line.startswith('<<"'):
+            if line.startswith('<<"') or line.startswith('<< "'):
                 buf = line
                 depth = _bal(line)
                 if depth == 0:
